@@ -40,10 +40,19 @@ import (
 
 type scenario struct {
 	Ext   string `json:"ext"`   // xgo | gox | go
-	Mode  string `json:"mode"`  // "0644"
+	Mode  int    `json:"mode"`  // permission bits as a number (0644 octal = 420)
 	Form  string `json:"form"`  // file-nodir | file-dir | walk-dot | walk-dir
 	Flags string `json:"flags"` // plain | smart | smart-mvgo
 	Xdev  bool   `json:"xdev"`  // $TMPDIR on another device
+	Link  string `json:"link"`  // none | abs | rel : the path is a symbolic link to the source file
+}
+
+// modeStr renders a mode number of the model / of stat (4096 = no file).
+func modeStr(m int) string {
+	if m < 0 || m >= 4096 {
+		return "-"
+	}
+	return fmt.Sprintf("%04o", m)
 }
 
 func (s scenario) String() string {
@@ -51,7 +60,10 @@ func (s scenario) String() string {
 	if s.Xdev {
 		x = ",xdev"
 	}
-	return fmt.Sprintf("%s,%s,%s,%s%s", s.Ext, s.Mode, s.Form, s.Flags, x)
+	if s.Link != "" && s.Link != "none" {
+		x += ",symlink-" + s.Link
+	}
+	return fmt.Sprintf("%s,%s,%s,%s%s", s.Ext, modeStr(s.Mode), s.Form, s.Flags, x)
 }
 
 type step struct {
@@ -60,7 +72,7 @@ type step struct {
 	P     string `json:"p"`
 	Q     string `json:"q"`
 	H     int    `json:"h"`
-	Mode  string `json:"mode"`
+	Mode  int    `json:"mode"` // as passed to the call (the model applies the umask for open/creat)
 	N     int    `json:"n"`
 	Match bool   `json:"match"`
 	Creat bool   `json:"creat"`
@@ -76,7 +88,8 @@ type traceProg struct {
 	Name     string   `json:"name"`
 	Mv       bool     `json:"mv"`
 	Xdev     bool     `json:"xdev"`
-	OrigMode string   `json:"origMode"`
+	Link     string   `json:"link"`
+	OrigMode int      `json:"origMode"`
 	NewLen   int      `json:"newLen"`
 	Sc       scenario `json:"sc"`
 	Inject   string   `json:"inject"`
@@ -90,6 +103,9 @@ type dirState struct {
 	MMode  string `json:"mmode"`
 	Tmp    string `json:"tmp"`
 	Tmpx   string `json:"tmpx"`
+	Real   string `json:"real"` // the file a symbolic link at the path points to
+	RMode  string `json:"rmode"`
+	TLink  bool   `json:"tlink"` // the path itself is (still) a symbolic link
 }
 
 type injectSpec struct {
@@ -111,7 +127,7 @@ type traceMeta struct {
 	Class    string       `json:"class"`
 	KillN    []int        `json:"killn"`  // per event: per-thread count of that syscall name before it, +1
 	KillMax  []int        `json:"killmax"`
-	ModeFrom string       `json:"modefrom"`
+	ModeFrom int          `json:"modefrom"`
 	LibSame  bool         `json:"libsame"`
 	New      string       `json:"new"` // the complete formatted text of the scenario
 }
@@ -168,6 +184,7 @@ func libFormat(sc scenario, path string, src []byte) ([]byte, error) {
 type runEnv struct {
 	root, w, tmpdir   string
 	target, moved     string // absolute
+	real              string // absolute: referent of the symbolic link at target ("" when target is a regular file)
 	targetRel, arg    string
 	orig              []byte
 	sc                scenario
@@ -206,11 +223,30 @@ func setupRun(sc scenario) (*runEnv, error) {
 		}
 	}
 	e.orig = []byte(sampleSource(sc.Ext))
-	if err := os.WriteFile(e.target, e.orig, 0600); err != nil {
+	file := e.target
+	e.real = filepath.Join(e.w, "real", name) + ".unused"
+	if sc.Link == "abs" || sc.Link == "rel" {
+		// the path handed to xgo fmt is a symbolic link; the source file lives in another directory
+		e.real = filepath.Join(e.w, "real", name)
+		if err := os.MkdirAll(filepath.Dir(e.real), 0755); err != nil {
+			return nil, err
+		}
+		file = e.real
+		to := e.real
+		if sc.Link == "rel" {
+			var err error
+			if to, err = filepath.Rel(filepath.Dir(e.target), e.real); err != nil {
+				return nil, err
+			}
+		}
+		if err := os.Symlink(to, e.target); err != nil {
+			return nil, err
+		}
+	}
+	if err := os.WriteFile(file, e.orig, 0600); err != nil {
 		return nil, err
 	}
-	m, _ := strconv.ParseUint(sc.Mode, 8, 32)
-	if err := os.Chmod(e.target, os.FileMode(m)); err != nil {
+	if err := os.Chmod(file, os.FileMode(sc.Mode)); err != nil {
 		return nil, err
 	}
 	return e, nil
@@ -331,6 +367,8 @@ func (e *runEnv) role(p string) string {
 		return "target"
 	case p == e.moved:
 		return "moved"
+	case p == e.real:
+		return "real"
 	case filepath.Dir(p) == filepath.Dir(e.target):
 		return "tmp"
 	case strings.HasPrefix(p, e.tmpdir+"/"), strings.HasPrefix(p, e.root+"/"):
@@ -339,13 +377,13 @@ func (e *runEnv) role(p string) string {
 	return ""
 }
 
-func octal(s string) string {
+func octal(s string) int {
 	s = strings.TrimSpace(s)
 	n, err := strconv.ParseUint(s, 8, 32)
 	if err != nil {
-		return s
+		return 4096
 	}
-	return fmt.Sprintf("%04o", n&0o7777)
+	return int(n & 0o7777)
 }
 
 func (e *runEnv) events(lg *straceLog, expect []byte) []fsEvent {
@@ -441,8 +479,7 @@ func (e *runEnv) events(lg *straceLog, expect []byte) []fsEvent {
 			ev.Other = checkRole(r, p)
 			ev.Creat, ev.Trunc = fl["O_CREAT"], fl["O_TRUNC"]
 			if mode != "" {
-				m, _ := strconv.ParseUint(strings.TrimSpace(mode), 8, 32)
-				ev.Mode = fmt.Sprintf("%04o", uint32(m)&^uint32(umask)&0o7777)
+				ev.Mode = octal(mode) // as requested: the umask is part of the model (FmtCrash.tla: Umask)
 			}
 			if fl["O_CREAT"] && fl["O_EXCL"] {
 				ev.Op = "CreateExcl"
@@ -652,7 +689,7 @@ func classify(evs []fsEvent) string {
 }
 
 func fileState(p string, orig, neu []byte) (string, string) {
-	st, err := os.Lstat(p)
+	st, err := os.Stat(p) // what is seen THROUGH the path: symbolic links are followed
 	if err != nil {
 		return "absent", "-"
 	}
@@ -688,11 +725,15 @@ func (e *runEnv) inspect(neu []byte) dirState {
 	var d dirState
 	d.Target, d.TMode = fileState(e.target, e.orig, neu)
 	d.Moved, d.MMode = fileState(e.moved, e.orig, neu)
+	d.Real, d.RMode = fileState(e.real, e.orig, neu)
+	if li, err := os.Lstat(e.target); err == nil && li.Mode()&os.ModeSymlink != 0 {
+		d.TLink = true
+	}
 	d.Tmp, d.Tmpx = "absent", "absent"
 	if ents, err := os.ReadDir(filepath.Dir(e.target)); err == nil {
 		for _, en := range ents {
 			p := filepath.Join(filepath.Dir(e.target), en.Name())
-			if p == e.target || p == e.moved || en.IsDir() {
+			if p == e.target || p == e.moved || p == e.real || en.IsDir() {
 				continue
 			}
 			d.Tmp, _ = fileState(p, e.orig, neu)
@@ -999,7 +1040,7 @@ func recordScenario(sc scenario, withFaults bool) ([]recorded, []hlib.Result, er
 	final := e.inspect(neu)
 	kn, kmax := killCounts(lg, evs)
 	base := recorded{
-		prog: traceProg{Name: "trace", Mv: mv, Xdev: sc.Xdev, OrigMode: sc.Mode, NewLen: len(neu), Sc: sc, Inject: "none",
+		prog: traceProg{Name: "trace", Mv: mv, Xdev: sc.Xdev, Link: linkOf(sc), OrigMode: sc.Mode, NewLen: len(neu), Sc: sc, Inject: "none",
 			Steps: toSteps(evs, lg.ExitCode)},
 		meta: traceMeta{Sc: sc, Exit: lg.ExitCode, Final: final, Shape: shapeOf(evs), Class: classify(evs),
 			KillN: kn, KillMax: kmax, ModeFrom: sc.Mode, LibSame: libSame, New: string(neu)},
@@ -1029,7 +1070,7 @@ func recordScenario(sc scenario, withFaults bool) ([]recorded, []hlib.Result, er
 		}
 		kn2, kmax2 := killCounts(lg2, evs2)
 		r := recorded{
-			prog: traceProg{Name: "trace", Mv: mv, Xdev: sc.Xdev, OrigMode: sc.Mode, NewLen: len(neu), Sc: sc,
+			prog: traceProg{Name: "trace", Mv: mv, Xdev: sc.Xdev, Link: linkOf(sc), OrigMode: sc.Mode, NewLen: len(neu), Sc: sc,
 				Inject: fmt.Sprintf("%s#%d=%s", ev.Sys, j, in.Errno), Steps: toSteps(evs2, lg2.ExitCode)},
 			meta: traceMeta{Sc: sc, Injects: ins, Exit: lg2.ExitCode, Final: e2.inspect(neu), Shape: shapeOf(evs2),
 				Class: base.meta.Class, KillN: kn2, KillMax: kmax2, ModeFrom: sc.Mode, LibSame: libSame, New: string(neu)},
@@ -1044,14 +1085,21 @@ func recordScenario(sc scenario, withFaults bool) ([]recorded, []hlib.Result, er
 // of every recorded trace.  quick: one per file kind x flags (mode 0644, path with directory) plus one
 // without directory component; thorough: every path form with mode 0644, and mode 0444 with directory.
 // All other scenarios get the fault-free trace, the final-state/mode check and a kill at every lead.
+func linkOf(sc scenario) string {
+	if sc.Link == "" {
+		return "none"
+	}
+	return sc.Link
+}
+
 func deepScenario(sc scenario) bool {
-	if sc.Xdev {
+	if sc.Xdev || linkOf(sc) != "none" {
 		return false
 	}
 	if hlib.Tier() == "thorough" {
-		return sc.Mode == "0644" || (sc.Mode == "0444" && sc.Form == "file-dir")
+		return sc.Mode == 0o644 || (sc.Mode == 0o444 && sc.Form == "file-dir")
 	}
-	if sc.Mode != "0644" {
+	if sc.Mode != 0o644 {
 		return false
 	}
 	return sc.Form == "file-dir" || (sc.Form == "file-nodir" && sc.Ext == "xgo" && sc.Flags == "plain")
@@ -1166,7 +1214,7 @@ func corruptTrace(p *traceProg, how string) {
 	case "mode":
 		for i := range p.Steps {
 			if p.Steps[i].Op == "CreateExcl" || p.Steps[i].Op == "Open" || p.Steps[i].Op == "Chmod" {
-				p.Steps[i].Mode = "0640"
+				p.Steps[i].Mode = 0o640
 			}
 		}
 	case "res":
@@ -1194,9 +1242,12 @@ type stateRec struct {
 	Len        int      `json:"len"`
 	Status     string   `json:"status"`
 	Target     string   `json:"target"`
-	TMode      string   `json:"tmode"`
+	TMode      int      `json:"tmode"`
+	TLink      bool     `json:"tlink"`
+	Real       string   `json:"real"`
+	RMode      int      `json:"rmode"`
 	Moved      string   `json:"moved"`
-	MMode      string   `json:"mmode"`
+	MMode      int      `json:"mmode"`
 	Tmp        string   `json:"tmp"`
 	Tmpx       string   `json:"tmpx"`
 	Durable    bool     `json:"durable"`
@@ -1208,7 +1259,8 @@ type stateRec struct {
 }
 
 func (s stateRec) dir() dirState {
-	return dirState{s.Target, s.TMode, s.Moved, s.MMode, s.Tmp, s.Tmpx}
+	return dirState{Target: s.Target, TMode: modeStr(s.TMode), Moved: s.Moved, MMode: modeStr(s.MMode), Tmp: s.Tmp, Tmpx: s.Tmpx,
+		Real: s.Real, RMode: modeStr(s.RMode), TLink: s.TLink}
 }
 
 func sysLabel(st step) string {
@@ -1333,13 +1385,14 @@ func runFmtConfirm() {
 		hlib.Emit(res)
 		if m.Exit == 0 && durableReal(m.Final, p.Mv) {
 			r2 := hlib.Result{Idx: fin.idx, V: "ok", Input: in(len(p.Steps)), NT: nt + "|mode",
-				Detail: fmt.Sprintf("mode %s -> %s", p.OrigMode, m.Final.TMode)}
-			if !p.Mv && m.Final.TMode != p.OrigMode {
-				r2.V, r2.Sig = "viol", fmt.Sprintf("mode-changed:%s->%s", p.OrigMode, m.Final.TMode)
+				Detail: fmt.Sprintf("mode %s -> %s", modeStr(p.OrigMode), m.Final.TMode)}
+			// bit-for-bit comparison of stat(path) before and after (umask 022 is fixed by the harness)
+			if !p.Mv && m.Final.TMode != modeStr(p.OrigMode) {
+				r2.V, r2.Sig = "viol", fmt.Sprintf("mode-changed:%s->%s", modeStr(p.OrigMode), m.Final.TMode)
 				r2.Detail = fmt.Sprintf("scenario %s inject=%s: successful run changed the permission bits %s -> %s; calls: %s",
-					p.Sc, p.Inject, p.OrigMode, m.Final.TMode, m.Shape)
-			} else if p.Mv && m.Final.MMode != p.OrigMode {
-				r2.V, r2.Sig = "drift", fmt.Sprintf("mvgo-mode:%s->%s", p.OrigMode, m.Final.MMode)
+					p.Sc, p.Inject, modeStr(p.OrigMode), m.Final.TMode, m.Shape)
+			} else if p.Mv && m.Final.MMode != modeStr(p.OrigMode) {
+				r2.V, r2.Sig = "drift", fmt.Sprintf("mvgo-mode:%s->%s", modeStr(p.OrigMode), m.Final.MMode)
 				r2.Detail = "--mvgo creates the .xgo file with 0666&^umask (the file is moved on purpose; not judged by C26)"
 			}
 			hlib.Emit(r2)
